@@ -479,6 +479,11 @@ def header_counts(data):
 
 def arpa_mutant(rng, bases):
     """bases: list of bytes.  Returns (bytes, names) with the announced counts under the cap."""
+    if rng.chance(1, 40):
+        # a well-formed model of an order the build does not support (KENLM_MAX_ORDER = 6)
+        m = gen_model(rng, order=rng.choice([7, 7, 8]), nwords=2)
+        if m["order"] >= 7:
+            return render(m), ["valid-order-%d" % m["order"]]
     for _ in range(20):
         data = rng.choice(bases)
         names = []
